@@ -80,6 +80,26 @@ MUTATIONS = [
     ("c09-revert-fix5", "tokens.py", "        except ValueError:\n            # The token file has been created by another process but is not\n            # written yet: a \"modified\" event will follow\n            logger.debug(\"Token file %s is not complete yet\", path)\n", "", ["C09"]),
     ("c09-revert-fix16", "tokens.py", "                    dependency.name,\n                )\n            else:", "                    dependency.name,\n                )\n                return\n            else:", ["C09", "C06"]),
     ("c09-reclaim-no-delete", "tokens.py", "                process.wait()\n\n            self.delete()", "                process.wait()", ["C09"]),
+    # C14
+    # (equivalent, not used: Sealer(recurse_task=False) - producing tasks are always sealed by their own submission)
+    ("c14-walk-skips-pretasks", "core/objects.py", "            if info.pre_tasks:\n                with self.map(\"__pre_tasks__\"):\n                    self(info.pre_tasks)", "            if False:\n                pass", ["C14", "C13"]),
+    ("c14-walk-skips-dict-values", "core/objects.py", "                with self.map(key):\n                    result[key] = self(value)", "                result[key] = value", ["C14", "C17", "C13"]),
+    ("c14-pretask-no-sealed-check", "core/objects.py", "        if self.__xpm__._sealed:\n            raise SealedError(\"Cannot add pre-tasks to a sealed configuration\")", "        pass", ["C14"]),
+    ("c14-setmeta-no-assert", "core/objects.py", "        assert not self._sealed, \"Configuration is sealed\"\n        self._meta = value", "        self._meta = value", ["C14"]),
+    ("c14-set-no-sealed-check", "core/objects.py", "        if self._sealed and not bypass:\n            raise AttributeError(f\"Object is read-only (trying to set {k})\")", "        pass", ["C14"]),
+    # C15
+    ("c15-int-truncates", "core/types.py", "            if rest != 0:\n                raise TypeError(f\"Value {value} is not an integer but a float\")", "            pass", ["C15"]),
+    ("c15-array-no-elements", "core/types.py", "        return [self.type.validate(x) for x in value]", "        return list(value)", ["C15"]),
+    ("c15-dict-no-keys", "core/types.py", "            self.keytype.validate(key): self.valuetype.validate(value)", "            key: self.valuetype.validate(value)", ["C15"]),
+    ("c15-revert-fix8", "core/objects.py", "                elif isinstance(value, list):\n                    for el in value:\n                        validate_value(el)", "                elif False:\n                    pass", ["C15"]),
+    ("c15-revert-fix9", "core/types.py", "            raise ValueError(f\"None is not a configuration of type {self.basetype}\")", "            return None", ["C15"]),
+    ("c15-float-accepts-str", "core/types.py", "        if not isinstance(value, (float, int)):\n            raise TypeError(\"value is not a float\")\n        return float(value)", "        return float(value)", ["C15"]),
+    ("c15-subclass-check-dropped", "core/types.py", "        if not isinstance(value, types):\n            raise ValueError(", "        if False:\n            raise ValueError(", ["C15"]),
+    # C17
+    ("c17-list-index-not-pushed", "core/objects.py", "    def list(self, i: int):\n        return self.context.push(str(i))", "    def list(self, i: int):\n        return self.context.push(\"item\")", ["C17"]),
+    ("c17-context-path", "generators.py", "            path = context.currentpath() / Path(self.path)", "            path = context.path / Path(self.path)", ["C17"]),
+    ("c17-position-not-restored", "core/objects.py", "        finally:\n            self._configpath = p", "        finally:\n            pass", ["C17"]),
+    ("c17-out-prefix-is-parent", "core/objects.py", "            self._configpath = (Path(\"out\") if p is None else p) / key", "            self._configpath = (Path(\"..\") if p is None else p) / key", ["C17"]),
     # C18
     ("c18-revert-cpu", "launcherfinder/specs.py", "return self.memory < other.memory or self.cores < other.cores", "return self.memory < other.memory and self.cores < other.cores", ["C18"]),
     ("c18-revert-and", "launcherfinder/specs.py", "        newself = deepcopy(self)\n        newself._add(other)", "        newself = copy(self)\n        newself._add(other)", ["C18"]),
